@@ -185,6 +185,18 @@ def scripted_client(seat, scenario, addr, out, faults=None):
         team = scenario['teams']['NS' if me % 2 == 0 else 'EW']
         w.send(f'Connecting "{team}" as {name} using protocol version 18')
         out['seated'] = w.recv()
+        client_session(w, seat, scenario, out, faults)
+    except (EOFError, ClientAbort) as e:
+        out['aborted'] = repr(e)
+    finally:
+        sock.close()
+
+
+def client_session(w, seat, scenario, out, faults=None):
+    """everything a conforming client does after it has been told that it is seated"""
+    name = FORMAL[seat]
+    me = SEATS.index(seat)
+    if True:
         w.send(f'{name} ready for teams')
         out['teams'] = w.recv()
         w.send(f'{name} ready to start')
@@ -229,10 +241,6 @@ def scripted_client(seat, scenario, addr, out, faults=None):
                         w.recv()
             msg = w.recv()
         out['end'] = msg
-    except (EOFError, ClientAbort) as e:
-        out['aborted'] = repr(e)
-    finally:
-        sock.close()
 
 
 # ------------------------------------------------------------------ running a session
@@ -256,7 +264,7 @@ class Result:
 
 
 def run_session(scenario, policy, workdir, clients='scripted', faults=None, max_steps=600000,
-                client_factory=None, extra_threads=None, main_wrapper=None, inject=None):
+                client_factory=None, extra_threads=None, main_wrapper=None, inject=None, attempts=None):
     """returns Result: status, schedule, exceptions, log text, per-connection byte streams, per-thread ops"""
     import pathlib
     from bridge_env.network_bridge.server import Server
@@ -280,7 +288,9 @@ def run_session(scenario, policy, workdir, clients='scripted', faults=None, max_
                 server.run()
 
     S.spawn(sched, 'main', main)
-    for p in SEATS:
+    for label, fn in (attempts(addr, outs) if attempts is not None else []):
+        S.spawn(sched, label, fn)
+    for p in (SEATS if attempts is None else []):
         if client_factory is not None:
             fn = client_factory(p, scenario, addr, outs[p])
         else:
